@@ -13,9 +13,12 @@
      arrays       write_array_start .. write_end, or write_start .. write_end;
      `{ }`        also write_object_start; write_end;
      headers      write_header h + container;   write_rgb = header "rgb" + array of 3/4 u32.
-   Not in the call alphabet of this theorem (hence `_partial`): start_mixed_mode (cannot be: known
-   findings calls-mixed-nested-op, calls-mixed-mode-lost), write_binary forwarding, parameters
-   (no writer API), and objects continuing as value lists.  Floats and dates are covered
+     write_binary every one of the above may also be issued through write_binary of the corresponding
+                  BinaryToken (Bool, U32, U64, I32, I64, Quoted, Unquoted, F32, F64, Token id ->
+                  __unknown_0x.., Equal, Object, Array, End, Rgb).
+   Not in the call alphabet of this theorem (hence `_partial`): start_mixed_mode / BinaryToken
+   MixedContainer (cannot be: known findings calls-mixed-nested-op, calls-mixed-mode-lost),
+   parameters (no writer API), and objects continuing as value lists.  Floats and dates are covered
    conditionally: their text must be a bare word, which is part of [wf_doc d]. *)
 From JV Require Import Bytes Tables TextTok TextTape TextDoc Date Scalar Writer.
 From JV.proofs Require Import WriterProofs WriterLayoutDefs WriterLayoutProofs WriterCallsLayoutProofs.
@@ -79,13 +82,14 @@ Proof. intros [|]; reflexivity. Qed.
 
 (* non-vacuity:  data = { a 1 "q" < { x } c = rgb { 1 2 3 } e = { } }  f { -5 yes }
    written with write_start for `data` (explicit `=` after its first key), implicit `=` elsewhere,
-   write_array_start / write_start for the arrays, write_rgb, write_i32, write_bool, write_quoted *)
+   write_array_start / write_start for the arrays, write_rgb, write_i32, write_quoted, and
+   write_binary(Bool) / write_binary(End) for the last two calls *)
 Open Scope N_scope.
 Definition ex_calls : list call :=
   [CUnquoted [100]; CStart; CUnquoted [97]; COperator Equal; CI32 1%Z;
    CQuoted [113]; COperator LessThan; CArrayStart; CUnquoted [120]; CEnd;
    CUnquoted [99]; CRgb 1 2 3 None; CUnquoted [101]; CObjectStart; CEnd; CEnd;
-   CUnquoted [102]; CStart; CI32 (-5)%Z; CBool true; CEnd].
+   CUnquoted [102]; CStart; CI32 (-5)%Z; CBinary (BBool true); CBinary (BEnd 0)].
 Definition ex_cdoc : doc :=
   FCons (Field Unq [100] None
     (VObject (FCons (Field Unq [97] (Some Equal) (VScalar Unq [49]))
@@ -104,29 +108,29 @@ Proof.
   apply (cfs_cons fdisp _ _ [CUnquoted [100%N]; CStart; CUnquoted [97%N]; COperator Equal; CI32 1%Z;
      CQuoted [113%N]; COperator LessThan; CArrayStart; CUnquoted [120%N]; CEnd;
      CUnquoted [99%N]; CRgb 1 2 3 None; CUnquoted [101%N]; CObjectStart; CEnd; CEnd]
-     [CUnquoted [102%N]; CStart; CI32 (-5)%Z; CBool true; CEnd]).
+     [CUnquoted [102%N]; CStart; CI32 (-5)%Z; CBinary (BBool true); CBinary (BEnd 0%N)]).
   - apply (cf_field fdisp (CUnquoted [100%N]) Unq [100%N] None []); [reflexivity|left; auto|].
-    apply (cv_obj_unk fdisp (CUnquoted [97%N]) Unq [97%N] Equal (VScalar Unq [49%N]) [CI32 1%Z] _
+    apply (cv_obj_unk fdisp CEnd (CUnquoted [97%N]) Unq [97%N] Equal (VScalar Unq [49%N]) [CI32 1%Z] _
              [CQuoted [113%N]; COperator LessThan; CArrayStart; CUnquoted [120%N]; CEnd;
               CUnquoted [99%N]; CRgb 1 2 3 None; CUnquoted [101%N]; CObjectStart; CEnd]);
-      [reflexivity|apply (cv_scalar fdisp (CI32 1%Z)); reflexivity|].
+      [reflexivity|reflexivity|apply (cv_scalar fdisp (CI32 1%Z)); reflexivity|].
     apply (cfs_cons fdisp _ _ [CQuoted [113%N]; COperator LessThan; CArrayStart; CUnquoted [120%N]; CEnd]
              [CUnquoted [99%N]; CRgb 1 2 3 None; CUnquoted [101%N]; CObjectStart; CEnd]).
-    + apply (cf_field fdisp (CQuoted [113%N]) Quo [113%N] (Some LessThan) [COperator LessThan]); [reflexivity|right; eexists; auto|].
-      apply (cv_arr fdisp _ [CUnquoted [120%N]]).
+    + apply (cf_field fdisp (CQuoted [113%N]) Quo [113%N] (Some LessThan) [COperator LessThan]); [reflexivity|right; left; eexists; auto|].
+      apply (cv_arr fdisp CArrayStart CEnd _ [CUnquoted [120%N]]); [reflexivity|reflexivity|].
       apply (cis_cons fdisp _ _ [CUnquoted [120%N]] []); [reflexivity|apply (cv_scalar fdisp (CUnquoted [120%N])); reflexivity|constructor].
     + apply (cfs_cons fdisp _ _ [CUnquoted [99%N]; CRgb 1 2 3 None] [CUnquoted [101%N]; CObjectStart; CEnd]).
       * apply (cf_field fdisp (CUnquoted [99%N]) Unq [99%N] (Some Equal) []); [reflexivity|left; auto|].
-        apply cv_rgb. unfold rgb_expand. cbn [app]. apply cv_hdr; [reflexivity|].
-        apply (cv_arr fdisp _ [CU32 1%N; CU32 2%N; CU32 3%N]).
+        apply (cv_rgb fdisp _ 1%N 2%N 3%N None); [left; reflexivity|]. unfold rgb_expand. cbn [app]. apply cv_hdr; [reflexivity|].
+        apply (cv_arr fdisp CArrayStart CEnd _ [CU32 1%N; CU32 2%N; CU32 3%N]); [reflexivity|reflexivity|].
         apply (cis_cons fdisp _ _ [CU32 1%N] [CU32 2%N; CU32 3%N]); [reflexivity|apply (cv_scalar fdisp (CU32 1%N)); reflexivity|].
         apply (cis_cons fdisp _ _ [CU32 2%N] [CU32 3%N]); [reflexivity|apply (cv_scalar fdisp (CU32 2%N)); reflexivity|].
         apply (cis_cons fdisp _ _ [CU32 3%N] []); [reflexivity|apply (cv_scalar fdisp (CU32 3%N)); reflexivity|constructor].
       * apply (cfs_cons fdisp _ _ [CUnquoted [101%N]; CObjectStart; CEnd] []); [|constructor].
-        apply (cf_field fdisp (CUnquoted [101%N]) Unq [101%N] None []); [reflexivity|left; auto|apply cv_obj_empty].
-  - apply (cfs_cons fdisp _ _ [CUnquoted [102%N]; CStart; CI32 (-5)%Z; CBool true; CEnd] []); [|constructor].
+        apply (cf_field fdisp (CUnquoted [101%N]) Unq [101%N] None []); [reflexivity|left; auto|apply cv_obj_empty; reflexivity].
+  - apply (cfs_cons fdisp _ _ [CUnquoted [102%N]; CStart; CI32 (-5)%Z; CBinary (BBool true); CBinary (BEnd 0%N)] []); [|constructor].
     apply (cf_field fdisp (CUnquoted [102%N]) Unq [102%N] None []); [reflexivity|left; auto|].
-    apply (cv_arr_unk fdisp _ [CI32 (-5)%Z; CBool true]).
-    apply (cis_cons fdisp _ _ [CI32 (-5)%Z] [CBool true]); [reflexivity|apply (cv_scalar fdisp (CI32 (-5)%Z)); reflexivity|].
-    apply (cis_cons fdisp _ _ [CBool true] []); [reflexivity|apply (cv_scalar fdisp (CBool true)); reflexivity|constructor].
+    apply (cv_arr_unk fdisp (CBinary (BEnd 0%N)) _ [CI32 (-5)%Z; CBinary (BBool true)]); [reflexivity|].
+    apply (cis_cons fdisp _ _ [CI32 (-5)%Z] [CBinary (BBool true)]); [reflexivity|apply (cv_scalar fdisp (CI32 (-5)%Z)); reflexivity|].
+    apply (cis_cons fdisp _ _ [CBinary (BBool true)] []); [reflexivity|apply (cv_scalar fdisp (CBinary (BBool true))); reflexivity|constructor].
 Qed.
